@@ -156,6 +156,10 @@ type relayCfg struct {
 	LimitDur  time.Duration `json:"limit_duration"`
 	Buf       int           `json:"buffer"`
 	ACL       *aclTable     `json:"acl,omitempty"`
+	// ViaDefaults: the Resources are built the documented way - rc := relay.DefaultResources(), fields
+	// (also rc.Limit.Data / rc.Limit.Duration) assigned, WithResources(rc) - and a second relay of the same
+	// process is configured the same way, with far wider limits, after this one was started
+	ViaDefaults bool `json:"resources_built_from_DefaultResources,omitempty"`
 }
 
 // ---------------------------------------------------------------------------------------------
